@@ -291,6 +291,15 @@ def _strategy(nmax: int):
             root = [draw(st.integers(1, 8)), draw(st.sampled_from([1, 1, 1, 2, 3]))]
         eps_rel = draw(st.one_of(st.floats(-12, 0).map(lambda e: 10.0**e), st.sampled_from([1e-12, 1e-6, 1e-3, 1.0]),
                                  st.floats(-3, 1).map(lambda d_: min(1.0, 10.0 ** (-recipe["logk"] + d_))), st.floats(-3, 1).map(lambda d_: min(1.0, 10.0 ** (-recipe["logk"] + d_)))))
+        if kind == "eigen_stab" and draw(st.sampled_from([False, False, False, True])):
+            # forced class: the stability option on a rank-deficient matrix with an epsilon far below the dtype's resolution of the scale (the optimizer's
+            # default 1e-12): the smallest eigenvalue comes out of the eigensolver as +-round-off and the documented shift must still leave epsilon
+            n = draw(st.sampled_from([2, 3, 3, 4, 6]))
+            recipe = dict(recipe, kind="logspace", nzero=draw(st.integers(1, n - 1)), logk=draw(st.sampled_from([0.0, 1.0, 2.0])))
+            recipe.pop("struct", None)
+            # (the optimizer's epsilon is absolute: against factors of norm 1e3-1e6 it is 1e-15..1e-18 relative - below u^2 in float32)
+            eps_rel = draw(st.sampled_from([1e-12, 1e-15, 1e-16, 1e-18]))
+            root = [draw(st.sampled_from([1, 2, 2, 4])), 1]
         if kind == "higher" and draw(st.sampled_from([False] * 5 + [True])):
             root = [draw(st.integers(10, 17)), draw(st.integers(10, 17))]  # numerator and denominator both large
         if kind == "newton" and draw(st.sampled_from([False] * 7 + [True])):
